@@ -102,6 +102,22 @@ pub fn run() {
 			jobs.push((bytes.clone(), a.describe(), p));
 		}
 	}
+	// the one-shot reader under the same schedules, hash requested: its result must not depend on the
+	// fragmentation either (the oracle of C11, here as part of "the game the one-shot reader returns")
+	{
+		let mut hjobs = vec![];
+		for (a, _) in bases() {
+			let bytes = Arc::new(record(&a).doc.assemble());
+			for s in schedules(&bytes, false, true, false) {
+				let mut p = P { hash: true, class: "oneshot-schedule", ..Default::default() };
+				set_sched(&mut p, &s);
+				hjobs.push((bytes.clone(), a.describe(), p));
+			}
+		}
+		par_each(hjobs.into_iter(), |(bytes, label, p), local| {
+			eval_case("hash", crate::checks::c11::o_hash, &bytes, &p, || format!("{} one-shot sched={:?}", label, sched_of(&p)), local);
+		});
+	}
 	cx.note("schedule_cases", json!(jobs.len()));
 	par_each(jobs.into_iter(), |(bytes, label, p), local| {
 		eval_case("incremental", o_incremental, &bytes, &p, || format!("{} sched={:?}", label, sched_of(&p)), local);
